@@ -80,7 +80,8 @@ const RATES: [u64; 6] = [10, 100, 190, 200, 290, 300];
 // out of bounds, including values that look legal once truncated to 8 / 16 / 32 bits
 const BAD_RATES: [u64; 12] = [0, 9, 301, 5000, u64::MAX, 512 + 100, 65_536 + 150, 4_294_967_296 + 10, 4_294_967_296 + 300, 4_294_967_296 * 7 + 200, 1 << 40, u64::MAX - 5];
 const LIFETIMES: [u64; 8] = [600, 600, 601, 900, 3600, 86400, 1209599, 1209600];
-const BAD_LIFETIMES: [u64; 5] = [0, 599, 1209601, 10_000_000, u64::MAX];
+// out of bounds, including values that look legal once truncated to 16 / 32 bits
+const BAD_LIFETIMES: [u64; 11] = [0, 599, 1209601, 10_000_000, u64::MAX, 4_294_967_296 + 600, 4_294_967_296 + 1_209_600, 3 * 4_294_967_296 + 3600, 4_294_967_296 * 4_294_967 + 900, 1 << 40, u64::MAX - 100];
 
 pub fn world_for(mode: Mode, rng: &mut Prng) -> (WorldCfg, AmtClass) {
     let amt = match mode {
@@ -127,6 +128,16 @@ pub fn world_for(mode: Mode, rng: &mut Prng) -> (WorldCfg, AmtClass) {
             // (e.g. contract1 #12 and contract11 #2)
             nfts_per_user = if rng.chance(1, 3) { 4 } else { rng.range(1, 2) as usize };
             n_cw20 = rng.range(1, 2) as usize;
+        }
+        Mode::AssetStack if rng.chance(1, 3) => {
+            // many native denominations: records created with more than 25 coins in one message
+            users = 3;
+            nfts_per_user = 2;
+            n_cw20 = 2;
+            natives = vec!["ujunox".to_string(), "uusdcx".to_string()];
+            for i in 0..rng.range(26, 30) {
+                natives.push(format!("udenom{i:02}"));
+            }
         }
         Mode::AssetStack => {
             users = 3;
@@ -331,11 +342,13 @@ impl Gen {
         let n = self.rng.range(1, 3);
         for _ in 0..n {
             if self.rng.chance(1, 4) {
-                // an NFT owned by another user
+                // an NFT owned by another user — or, rarely, one the seller holds / has already escrowed
+                // (an ask nobody can meet is odd but legal, and the listing must stay binding all the same)
+                let odd = self.rng.chance(1, 10);
                 let cands: Vec<(String, String)> = o
                     .nft_owner
                     .iter()
-                    .filter(|(_, ow)| ow.as_str() != seller && names.users.contains(ow))
+                    .filter(|(_, ow)| if odd { ow.as_str() == seller || **ow == names.market } else { ow.as_str() != seller && names.users.contains(ow) })
                     .map(|(n, _)| n.clone())
                     .collect();
                 if let Some(x) = self.rng.pick_opt(&cands) {
@@ -1394,6 +1407,23 @@ impl Gen {
 
     fn script_asset_stack(&mut self, o: &Obs, names: &Names) {
         let m = &names.market;
+        if names.natives.len() > 25 {
+            // creation is not capped: a record born with 26+ denominations must still be payable
+            let k = self.rng.range(26, names.natives.len() as u64) as usize;
+            let coins: Vec<Fund> = names.natives.iter().take(k).enumerate().map(|(i, d)| fund(d, 300 + i as u128)).collect();
+            self.count("record_created_with_over_25_coins");
+            self.script.push_back(Op::tx("user1", m, msgs::create_bucket(7), coins.clone()));
+            let ask = AskSpec { native: vec![("ujunox".into(), 500)], ..Default::default() };
+            self.script.push_back(Op::tx("user2", m, msgs::create_listing(7, &ask, None), coins));
+            self.script.push_back(Op::tx("user2", m, msgs::finalize(7, 600), vec![]));
+            self.script.push_back(Op::tx("user1", m, msgs::create_bucket(8), vec![fund("ujunox", 500)]));
+            self.script.push_back(Op::tx("user1", m, msgs::buy(7, 8), vec![]));
+            if self.rng.chance(1, 2) {
+                self.script.push_back(Op::tx("user1", m, msgs::withdraw_purchased(7), vec![]));
+                self.script.push_back(Op::tx("user1", m, msgs::remove_bucket(7), vec![]));
+            }
+            self.next_id_hint = 9;
+        }
         let who = "user0";
         let target = *self.rng.pick(&[24usize, 25, 26, 27]);
         let as_listing = self.rng.chance(1, 2);
